@@ -36,6 +36,7 @@ impl futures_core::Stream for Timer {
                 .deadline
                 .store(when.saturating_add(self.period), Ordering::SeqCst);
             *self.slot.waker.lock().unwrap_or_else(|e| e.into_inner()) = None;
+            crate::obs::emit_tick(when);
             Poll::Ready(Some(crate::sync::Instant(when)))
         } else {
             *self.slot.waker.lock().unwrap_or_else(|e| e.into_inner()) = Some(cx.waker().clone());
